@@ -119,6 +119,18 @@ def generate(tier, rng):
         steps += [{"act": "Callback"}] * 4
         scen.append({"spatialB": rng.random() < 0.3, "persistA": rng.random() < 0.3, "persistB": rng.random() < 0.3, "persistC": depth == 3 and rng.random() < 0.3,
                      "depth": depth, "src": "random", "steps": steps})
+    # directed: a pause written while a scheduled resume is still waiting for its start time - the pause is the last word
+    # (random histories meet this only now and then)
+    cbs = lambda n: [{"act": "Callback"}] * n
+    for t in ("A", "B"):
+        for wk in ("delayed", "clock"):
+            for d in (0, 2):
+                for gap in (1, 2):
+                    steps = cbs(2) + [{"act": "Cmd", "t": t, "c": "pause", "d": 0, "wk": "none", "wt": 0}] + cbs(2) \
+                        + [{"act": "Cmd", "t": t, "c": "resume_at", "d": d, "wk": wk, "wt": 3}] + cbs(gap) \
+                        + [{"act": "Cmd", "t": t, "c": "pause", "d": d, "wk": "none", "wt": 0}] + cbs(9)
+                    scen.append({"spatialB": False, "persistA": False, "persistB": False, "persistC": False, "depth": 2,
+                                 "src": "directed-pause-over-waiting-resume", "steps": steps})
     return scen
 
 
